@@ -1,13 +1,13 @@
 package chain
 
 import (
-	"os"
 	"bytes"
 	"encoding/base64"
 	"encoding/hex"
 	"encoding/json"
 	"fmt"
 	"math/big"
+	"os"
 	"path/filepath"
 	"strconv"
 	"strings"
@@ -403,12 +403,56 @@ func (w *World) checkReopened(r *Replica, h int64, origin string, props []string
 }
 
 func (w *World) openPendingForks(h int64) {
+	for round := 0; round < 3 && len(w.pending) > 0; round++ {
+		w.openPendingRound(h)
+	}
+	w.pending = nil
+}
+
+func (w *World) openPendingRound(h int64) {
 	pend := w.pending
 	w.pending = nil
 	for _, pf := range pend {
 		name := fmt.Sprintf("K%d", len(w.Forks)+1)
 		origin := fmt.Sprintf("crash at %s of block %d", pf.Point, pf.Height)
-		r, err := OpenReplica(name, pf.Img.Root, w.GenDoc, pf.Img.StateDB, pf.Img.BlockDB, nil, nil)
+		var yieldFn func(r *Replica, point string)
+		var cwFn func(r *Replica, name string, v int64)
+		if pf.Fault.Again != "" {
+			// second crash while the recovering node replays the interrupted block (handshake)
+			taken := false
+			cw := 0
+			take := func(r *Replica, point string) {
+				if taken {
+					return
+				}
+				taken = true
+				w.forkSeq++
+				img, err := r.Fork(filepath.Join(w.Base, fmt.Sprintf("fork%d", w.forkSeq)))
+				if err != nil {
+					return
+				}
+				f2 := pf.Fault
+				f2.Again = ""
+				w.pending = append(w.pending, &pendingFork{Img: img, Fault: f2, Height: pf.Height, Point: pf.Point + " and again at " + point + " of the replay", From: pf.From})
+				w.Probes.Hit("fault.crash-during-recovery")
+			}
+			yieldFn = func(r *Replica, point string) {
+				if point == "commit.pre" {
+					cw = 0
+				}
+				if point == pf.Fault.Again {
+					take(r, point)
+				}
+			}
+			cwFn = func(r *Replica, name string, v int64) {
+				cw++
+				if fmt.Sprintf("cw:%d", cw) == pf.Fault.Again {
+					take(r, fmt.Sprintf("cw:%d(%s)", cw, name))
+				}
+			}
+		}
+		r, err := OpenReplica(name, pf.Img.Root, w.GenDoc, pf.Img.StateDB, pf.Img.BlockDB, yieldFn, cwFn)
+		r.Yield, r.CommitPoint = nil, nil
 		fr := &forkRep{R: r, Origin: origin}
 		follow := pf.Fault.Follow
 		if follow <= 0 {
@@ -517,7 +561,6 @@ func canonicalJSON(b []byte) []byte {
 	}
 	return c
 }
-
 
 // judgeVmCall: a read-only contract call at height h must equal the reference EVM's read-only call on
 // the world committed at h (code and storage of h, native balances and nonces of h, block time of h).
